@@ -6971,6 +6971,7 @@ class Rect(Shape):
             self.rx = self.rx.value(relative_length=width, **kwargs)
         if isinstance(self.ry, Length):
             self.ry = self.ry.value(relative_length=height, **kwargs)
+        self._validate_rect()  # The radii are clamped against the resolved size.
         return self
 
     def is_degenerate(self):
